@@ -44,7 +44,8 @@ def entry_point_cases(c, rng, quick):
                     if hi > lo:
                         pv.append(lo + (hi - lo) * rng.choice([0.5, 0.25, 0.75, rng.random()]))
                     else:
-                        pv.append(d)
+                        # no range declared in the spec: the default, or a plain non-negative value (loads, factors, flags)
+                        pv.append(rng.choice([d, d, 0.0, 0.5, 1.0, 2.5, 10.0]))
             # parameter matrix is [nParams, nParamSets] row-major: regroup
             pmat = []
             k = 0
